@@ -1058,10 +1058,12 @@ impl BackendList {
     }
 
     pub fn find_sticky(&mut self, sticky_session: &str) -> Option<&mut Rc<RefCell<Backend>>> {
-        self.backends
-            .iter_mut()
-            .find(|b| b.borrow().sticky_id.as_deref() == Some(sticky_session))
-            .and_then(|b| if b.borrow().can_open() { Some(b) } else { None })
+        // Several backends may carry the same sticky id (A/B variants): take the
+        // first holder that can accept a connection, not merely the first holder.
+        self.backends.iter_mut().find(|b| {
+            let b = b.borrow();
+            b.sticky_id.as_deref() == Some(sticky_session) && b.can_open()
+        })
     }
 
     pub fn available_backends(&mut self, backup: bool) -> Vec<Rc<RefCell<Backend>>> {
